@@ -1,6 +1,7 @@
 package checks
 
 import (
+	"sync/atomic"
 	"strings"
 
 	"verif/explore"
@@ -72,7 +73,15 @@ func init() {
 	runs = append(runs, WorldRun{World: "gov-1k", Quick: b(2, 2, 1), Thorough: b(3, 3, 1), MenuFilter: c20GovFilter(same)})
 	runs = append(runs, WorldRun{World: "gov-1k", Quick: b(2, 2, 2), Thorough: b(3, 3, 2), MenuFilter: c20GovFilter([]string{"halt@2"})})
 
-	regExplore("C20", runs, one(monitors.Committed(monitors.Governance{}, "cvote/", "uvote/", "halt/", "commission/", "version")), func(c *Ctx) {
+	c20mons := one(monitors.Committed(monitors.Governance{}, "cvote/", "uvote/", "halt/", "commission/", "version"))
+	// every history of two or more blocks is also executed with a restart before its last block
+	// (votes are kept in memory between blocks; a restarted node must tally and refuse the same way)
+	var c20Restarts int64
+	for i := range runs {
+		runs[i].OnTransition = restartVariants("C20", c20mons, &c20Restarts)
+	}
+	regExplore("C20", runs, c20mons, func(c *Ctx) {
+		c.Ev.Coverage["restart_variant_executions"] = atomic.LoadInt64(&c20Restarts)
 		var grid []map[string]interface{}
 		for _, sp := range worlds.C20GovGrid() {
 			var st []string
